@@ -953,7 +953,10 @@ def run(chk, replay=None):
 
     def add(case, force=False):
         free = case.get("weights") is None and case.get("filters") is None
-        gsl_default = case["loss"] == "gsl" and None in (case["opts"].get("nb_values"), case["opts"].get("nb_word_lengths"))
+        # options that are resolved from the data at evaluation time (GSL defaults from the length, the likelihood's bandwidth
+        # rule from the number of points and coordinates): always preceded by an evaluation on data of another length
+        gsl_default = (case["loss"] == "gsl" and None in (case["opts"].get("nb_values"), case["opts"].get("nb_word_lengths"))) or \
+                      (case["loss"] == "likelihood" and case["opts"].get("h") in ("silverman", "scott"))
         if not force and "prior_D" not in case and (gsl_default or rng.below(3) == 0):
             # the same loss object evaluated before on other data: more coordinates when nothing ties the object to D,
             # and (half of the time, always for length-dependent GSL defaults) series of another length
